@@ -582,10 +582,23 @@ impl LockFreeMemoryPool {
         
         // Always allocate from backing memory to ensure consistent pointer validation
         // External cache allocations would cause pointer validation failures in deallocate
-        let offset = self.next_offset.fetch_add(aligned_size as u32, Ordering::Relaxed);
-        
-        if offset as usize + aligned_size > self.config.memory_size {
-            return Err(ZiporaError::out_of_memory(aligned_size));
+        // Reserve the range only if it fits: a refused request must leave next_offset
+        // untouched (a blind fetch_add of `aligned_size as u32` truncates and wraps).
+        let mut offset = self.next_offset.load(Ordering::Relaxed);
+        loop {
+            let end = match (offset as usize).checked_add(aligned_size) {
+                Some(end) if end <= self.config.memory_size && end <= u32::MAX as usize => end,
+                _ => return Err(ZiporaError::out_of_memory(aligned_size)),
+            };
+            match self.next_offset.compare_exchange_weak(
+                offset,
+                end as u32,
+                Ordering::Relaxed,
+                Ordering::Relaxed,
+            ) {
+                Ok(_) => break,
+                Err(current) => offset = current,
+            }
         }
 
         let ptr = self.offset_to_ptr(offset)?;
